@@ -110,6 +110,27 @@ func generate(rng *kernel.RNG, idx int, tier string) *kernel.Plan {
 	}
 	lightStreak := 0
 	campaign, campaignLeft := int64(0), 0
+	// prologue (most runs of routers with a recent-signer rule): three blocks right behind the
+	// trust root, then recent-signer faults at chosen distances from the signer's last seal with
+	// that seal on the first blocks or ON THE TRUST ROOT ITSELF: always the root's own sealer two
+	// blocks after the root, plus two random (parent among root..root+3, distance 1..3) pairs
+	if !variants[p.Cfg["router"]].bor && len(kinds) > 0 && rng.Chance(0.65) && !strings.Contains(skip, ",recent_signer,") {
+		for i := 0; i < 3; i++ {
+			add("hon", 0, int64(1+4*rng.Intn(16)+rng.Intn(2)), 0)
+			honest = append(honest, int64(count))
+			count++
+		}
+		add("sub", relayer(), 1, 2, 3)
+		add("cut")
+		pairs := [][2]int64{{1, 1}, {int64(rng.Intn(4)), int64(rng.Intn(3))}, {int64(rng.Intn(4)), int64(rng.Intn(3))}}
+		for _, pr := range pairs {
+			add("bad", int64(kindIndex("recent_signer")), -(pr[0] + 1), int64(rng.Intn(64)), pr[1])
+			add("sub", relayer(), int64(count))
+			bad = append(bad, int64(count))
+			count++
+		}
+		add("cut")
+	}
 	for len(honest) < target {
 		// the simulated validators produce blocks
 		for i, n := 0, 1+rng.Intn(3); i < n && len(honest) < target; i++ {
